@@ -1,5 +1,6 @@
 import Tickit.Proof.WinInput
 import Tickit.Proof.WinInputSafe
+import Tickit.Proof.WinInputDeliver
 import Tickit.Gen.WinInputCfg
 /-
   C14 — Input reaches the front-most eligible window first, in its own coordinates.
@@ -31,6 +32,10 @@ import Tickit.Gen.WinInputCfg
                                                                      store invariant `AInv` is re-established)
          every state the engine can reach (window creation, bindings, application actions, flushes, events)
          ........................................................... `reachable_good`, `mutation_safe_full`
+         delivery to the windows a mutation does not affect: handlers that close, unref, hide, show or change
+         steal-input of windows of a set `A` closed under descendants (and restack or ref anything): the windows
+         outside `A` are offered the event in the reference order of the tree as it was when the dispatch began
+         ........................................................... `delivery_unaffected_key`, `delivery_unaffected_mouse`
 -/
 namespace Tickit.Props.C14
 open Tickit Tickit.WinTree Tickit.WinInput
@@ -692,6 +697,50 @@ theorem mutation_safe_full_operations : ∀ (st : St), Reachable st →
     have := flushSt_good ⟨hinv, tableOK_all _⟩
     rw [hw] at this; exact this
 
+
+/-! ### delivery to the windows a mutation does not affect -/
+
+/-- **delivery_unaffected (keys).**  Let `A` be a set of windows closed under descendants (`Base`: the store is
+    consistent, children of windows of `A` are in `A`, and no stealing window outside `A` has a front-most sibling
+    in `A`), not containing the root, and let every handler action be confined to `A` (`Conf`: close, unref, hide,
+    show and steal-input act on windows of `A`; restack requests and extra references are unrestricted; `take_focus`
+    is excluded), in a state that satisfies the store invariant and in which the application still owns every
+    window outside `A`.  Then, whatever the handlers do and claim, the windows *outside `A`* are offered a key event in
+    the reference order `keyVisits` of the tree **as it was when the dispatch began**: what is offered outside `A` is a
+    prefix of the reference order outside `A` (also on first occurrences, i.e. against `keyOrder`), and all of it when
+    nobody claims the event.  The store invariant holds again afterwards. -/
+theorem delivery_unaffected_key (A : Aff) (fuel F : Nat) (st st' : St) (ev : Ev) (claimed : Bool) (vs : List WinTree.Id)
+    (hu : Unaffected A st) (hroot : A 0 = false)
+    (h : onTermKey Cfg.repaired fuel st ev = Out.ok (st', claimed)) (hv : keyVisits st.tree F 0 = some vs) :
+    ∃ offered : List WinTree.Id,
+      offWins st'.log = offWins st.log ++ offered ∧
+      fA A offered <+: fA A vs ∧
+      keyOrder st.tree F 0 = some (firstOcc vs) ∧ fA A (firstOcc offered) <+: fA A (firstOcc vs) ∧
+      (claimed = false → fA A offered = fA A vs) ∧ AInv st' [] := by
+  obtain ⟨w0, hw0, hf0, _⟩ := hu.inv.tree.root
+  unfold onTermKey at h
+  obtain ⟨g, ws, off, _, n⟩ := handleKey_sim hu.base fuel st 0 ev [] st' claimed hu.dinv ⟨w0, hw0, hf0⟩ h
+  have m := n hroot F vs hv
+  refine ⟨ws, off, m.1, by simp [keyOrder, hv], ?_, m.2, g.good.1⟩
+  rw [← firstOcc_fA, ← firstOcc_fA]
+  exact firstOcc_prefix m.1
+
+/-- **delivery_unaffected (mouse).**  Under the same hypotheses a mouse event dispatched to a window `win` outside
+    `A` (the root for the event itself, the drag source for DRAG_STOP / DRAG_OUTSIDE) is offered to the windows
+    outside `A` in the order of `mouseVisits` on the tree as it was when the dispatch began — front-most window under
+    the pointer (or stealing) first — up to the first claim, and to all of them when nobody claims. -/
+theorem delivery_unaffected_mouse (A : Aff) (fuel F : Nat) (st st' : St) (win : WinTree.Id) (ev : Ev) (r : Option WinTree.Id)
+    (vs : List (WinTree.Id × Ev)) (hu : Unaffected A st) (hwin : A win = false) (hal : Alive st.tree win)
+    (h : handleMouse Cfg.repaired fuel st win ev = Out.ok (st', r)) (hv : mouseVisits st.tree F win ev = some vs) :
+    ∃ offered : List WinTree.Id,
+      offWins st'.log = offWins st.log ++ offered ∧
+      fA A offered <+: fA A (vs.map (·.1)) ∧
+      (r = none → fA A offered = fA A (vs.map (·.1))) ∧ AInv st' (heldR r []) := by
+  obtain ⟨g, ws, off, _, n⟩ := handleMouse_sim hu.base fuel st win ev [] st' r hu.dinv hal h
+  have m := n hwin F vs hv
+  refine ⟨ws, off, m.1, ?_, g.good.1⟩
+  intro hr; subst hr; exact m.2 rfl
+
 /-! ### the hypotheses of the theorems above are met by real histories (non-vacuity) -/
 
 namespace Scenario
@@ -957,5 +1006,25 @@ example : ∃ st, Reachable st ∧ st.tree.root.changes.length = 3 ∧
           exact ⟨st'', rfl, List.eq_nil_of_length_eq_zero h4⟩
   obtain ⟨st, hb, rest⟩ := h
   exact ⟨st, build_reachable _ _ _ restackOps_stepR (Reachable.fresh 5 8) hb, rest⟩
+
+open Scenario in
+/-- `delivery_unaffected_*`: the hypotheses hold of the states of the corpus histories with `A` = {window 2} (the
+    window the front-most sibling closes or unreferences from inside its handler), checked by the decidable version
+    `unaffectedCheck`, which is proved sound; and the conclusion is not empty there: the key is offered to 0, 3, 1 —
+    the reference order 0, 3, 2, 1 without window 2. -/
+example :
+    (∃ st, threeSiblingsKey .close = some st ∧ Unaffected (fun x => x == 2) st) ∧
+    (∃ st, threeSiblingsKey .unref = some st ∧ Unaffected (fun x => x == 2) st) ∧
+    (∃ st, threeStackedMouse .close = some st ∧ Unaffected (fun x => x == 2) st) ∧
+    ((threeSiblingsKey .close).map fun s => (keyVisits s.tree 5 0).map (fA (fun x => x == 2))) = some (some [0, 3, 1]) := by
+  have key : ∀ (o : Option St), (o.map fun s => unaffectedCheck (fun x => x == 2) s) = some true →
+      ∃ st, o = some st ∧ Unaffected (fun x => x == 2) st := by
+    intro o h
+    cases o with
+    | none => simp at h
+    | some st =>
+      simp only [Option.map_some, Option.some.injEq] at h
+      exact ⟨st, rfl, unaffectedCheck_sound h⟩
+  exact ⟨key _ (by decide +kernel), key _ (by decide +kernel), key _ (by decide +kernel), by decide +kernel⟩
 
 end Tickit.Props.C14
